@@ -11,6 +11,7 @@ import ast
 import contextlib
 import importlib
 import io
+import json
 import os
 import random
 import shutil
@@ -91,6 +92,18 @@ def make_module(r):
     return head + "\n\n" + "\n\n".join(parts) + "\n\n" + mapping, entries, imports, annotated
 
 
+def dotted_name(c):
+    """name of the input module of a case (a function of its contents): `c19m_<crc>`, or `c19p_<crc>.mod` inside a package"""
+    import zlib
+
+    crc = zlib.crc32(json.dumps([c["module"], c["type"], c["tpl"], c.get("imports_form")], sort_keys=True).encode())
+    return ("c19p_%08x.mod" if c.get("imports_form") == "pkg_symbol" else "c19m_%08x") % crc
+
+
+def effective_prepend(c):
+    return c["prepend"].replace("@MOD@", dotted_name(c)) if c["prepend"] else c["prepend"]
+
+
 class C19(Prop):
     id = "C19"
     quick_cases = 400
@@ -124,12 +137,18 @@ class C19(Prop):
                                  "NOTE = 'needs import sys and import os'\n"]),
             "use_imports": r.random() < 0.5,
         }
-        if c["prepend"] and not c["use_imports"]:
-            pass
+        # how --imports-from-file names the file: its path, the module's name, a symbol of the module / of a module inside
+        # a package (resolved through the import the prepended text makes)
+        c["imports_form"] = "path"
+        if c["use_imports"] and r.random() < 0.4:
+            c["imports_form"] = r.choice(["module", "symbol", "pkg_symbol"])
+            if c["imports_form"] != "module":
+                c["prepend"] = "import @MOD@\n"
         run.dist["type"][c["type"]] += 1
         run.dist["entries"][len(entries)] += 1
         run.dist["prepend"][str(bool(c["prepend"]))] += 1
         run.dist["imports_from_file"][c["use_imports"]] += 1
+        run.dist["imports_form"][c["imports_form"] if c["use_imports"] else "-"] += 1
         return c
 
     def nontrivial(self, c):
@@ -144,19 +163,25 @@ class C19(Prop):
     def run_gen(self, c):
         d = tempfile.mkdtemp(prefix="c19")
         _counter[0] += 1
-        modname = "c19mod_%d_%d" % (os.getpid(), _counter[0])
+        modname = dotted_name(c)
+        form = c.get("imports_form", "path")
         try:
-            with open(os.path.join(d, modname + ".py"), "w") as f:
+            if form == "pkg_symbol":
+                os.mkdir(os.path.join(d, modname.split(".")[0]))
+                open(os.path.join(d, modname.split(".")[0], "__init__.py"), "w").close()
+            modfile = os.path.join(d, *modname.split(".")) + ".py"
+            with open(modfile, "w") as f:
                 f.write(c["module"])
             sys.path.insert(0, d)
             importlib.invalidate_caches()
             out = os.path.join(d, "generated.py")
             buf = io.StringIO()
+            named = {"path": modfile, "module": modname}.get(form, "%s.%s" % (modname, c["entries"][0][0]))
             try:
                 with contextlib.redirect_stdout(buf):
                     self.gen_fn(
                         name_tpl=c["tpl"], input_mapping="%s.MAPPING" % modname, type_=c["type"], output_filename=out,
-                        prepend=c["prepend"], imports_from_file=os.path.join(d, modname + ".py") if c["use_imports"] else None,
+                        prepend=effective_prepend(c), imports_from_file=named if c["use_imports"] else None,
                     )  # fmt: skip
                 outcome = "ok"
             except Exception as e:
@@ -169,6 +194,7 @@ class C19(Prop):
             if d in sys.path:
                 sys.path.remove(d)
             sys.modules.pop(modname, None)
+            sys.modules.pop(modname.split(".")[0], None)
             shutil.rmtree(d, ignore_errors=True)
 
     def refusal(self, c):
@@ -203,7 +229,7 @@ class C19(Prop):
                     from doctrans.__main__ import main
 
                     main(["gen", "--name-tpl", c["tpl"], "--input-mapping", modname + ".MAPPING", "--type", c["type"], "-o", spelled]
-                         + (["--prepend", c["prepend"]] if c["prepend"] else [])
+                         + (["--prepend", c["prepend"].replace("@MOD@", modname)] if c["prepend"] else [])
                          + (["--imports-from-file", os.path.join(d, modname + ".py")] if c["use_imports"] else []))  # fmt: skip
             except SystemExit as e:
                 outcome = "exit-%s" % e.code
@@ -250,7 +276,7 @@ class C19(Prop):
         stmts = []
         doc_first = False
         if c["prepend"]:
-            for s in ast.parse(c["prepend"]).body:
+            for s in ast.parse(effective_prepend(c)).body:
                 if isinstance(s, (ast.Import, ast.ImportFrom)):
                     stmts.append(["imp", getattr(s, "module", None) == "__future__", ast.unparse(s)])
                 else:
@@ -314,7 +340,7 @@ class C19(Prop):
                 fails.append({"what": "__all__ does not follow the definitions"})
         first_def = min([tree.body.index(s) for s in defs] or [len(tree.body)])
         if c["prepend"]:
-            for s in ast.parse(c["prepend"]).body:
+            for s in ast.parse(effective_prepend(c)).body:
                 hits = [i for i, t in enumerate(tree.body) if ast.dump(t) == ast.dump(s)]
                 if len(hits) != 1 or hits[0] > first_def:
                     fails.append({"what": "prepended statement does not appear exactly once before the definitions", "stmt": ast.unparse(s), "positions": hits})
